@@ -528,13 +528,13 @@ def run(tier, seed):
               "4..6 x 7..9 (first round 4x7, 5x7 for window 5; values {0,1,3} or 0..15; masks over {0,1,2} in some rounds), sad/ssd/zncc x windows {1,3,5}, "
               "census x {3,5}, subpix {1,2,4}, with and without cbca; B) %d per-pixel grid inputs against the scalar interval spanning the reported "
               "disparity axis: random integer grids min<=max within [-3,3] (one third constant grids, half of them followed by cbca) and, on the same "
-              "images, as many float32 grids within [-3.3,3.3] off the sampling step (%d; the 7 kinds of bounded.C02.fractional_grids by turns: constant "
+              "images, as many float32 grids within [-4,4] off the sampling step (%d; the 7 kinds of bounded.C02.fractional_grids by turns: constant "
               "[-1.3,1.7], constant +-[0.x,2.y], both bounds n/4 +- {0.05,0.1}, fractional min with integer max, integer min with fractional max, mixed, "
               "intervals narrower than a step); C) %d single-scale pipelines run by pandora.run on 6x9..14x14 "
               "images (right image random, left = right moved by a piecewise constant disparity + 8%% outliers, or unrelated), 10 fixed pipelines x 3 then "
               "random ones over measure x window x subpix x {none,cbca} x {none,vfit,quadratic} x {none,median,bilateral} x {none,cross-checking, "
               "+mc-cnn, +sgm}, scalar intervals cycling over the 28 intervals (3/5), column-wise integer grids (1/5) or fractional float32 grids (1/5, %d "
-              "runs: column-wise integer intervals moved by off-step amounts on either side, or fractional_grids), masks in 1/3.  Runs that raised were "
+              "runs within [-3.7,4.7]: column-wise integer intervals moved by off-step amounts on either side, or fractional_grids), masks in 1/3.  Runs that raised were "
               "not evaluated: %s" % (counts["slice"], counts["grid"], counts["grid-fractional"], counts["pipeline"], counts["pipeline-fractional"],
                                      skipped if skipped else "none"),
         rule="seeded with np.random.default_rng(seed); each part stops at its time budget.  A: one evaluation per (input, inner, outer), volumes compared "
